@@ -126,7 +126,11 @@ type BoundScenario struct {
 }
 
 func (a *Adv) oneV1(txn types.Transaction) (types.Block, consensus.V1BlockSupplement, bool) {
-	blk := types.Block{Timestamp: NextTimestamp(a.CS, 0, 0), Transactions: []types.Transaction{txn}}
+	return a.manyV1(txn)
+}
+
+func (a *Adv) manyV1(txns ...types.Transaction) (types.Block, consensus.V1BlockSupplement, bool) {
+	blk := types.Block{Timestamp: NextTimestamp(a.CS, 0, 0), Transactions: txns}
 	if a.v2Allowed() {
 		blk.V2 = &types.V2BlockData{}
 	}
@@ -395,6 +399,49 @@ func (g *Gen) SetupBound(rule string) (sc BoundScenario, ok bool) {
 			return a.oneV1(txn)
 		}
 		return sc, true
+	case "v1-proof-after-window-revised-in-block":
+		// One block revises the window of a stored contract and then proves it. What counts is the contract as it
+		// stands when the proof is judged: the revision is legal while the stored window has not opened and the new
+		// window does not start in the past, the proof only once the block before the new window start exists.
+		W := child + ahead
+		X := W + 2
+		id, okp := b.V1FormAt(W, X)
+		if !okp || !finish() {
+			return sc, false
+		}
+		owner := std(2)
+		N := W + uint64(rapid.SampledFrom([]int{-1, 0, 1, 4}).Draw(t, "newWindowStart")+1) - 1
+		if N < 1 {
+			return sc, false
+		}
+		sc.From, sc.To = min64(N, W)-1, W+1
+		sc.Want = func(a *Adv) bool { return a.Child <= W && N == a.Child }
+		sc.Build = func(a *Adv) (types.Block, consensus.V1BlockSupplement, bool) {
+			e, ok := a.G.C.Store.FC[id]
+			if !ok {
+				return types.Block{}, consensus.V1BlockSupplement{}, false
+			}
+			rev := e.FileContract
+			rev.RevisionNumber++
+			rev.WindowStart, rev.WindowEnd = N, N+3
+			rtxn := types.Transaction{FileContractRevisions: []types.FileContractRevision{{ParentID: id, UnlockConditions: *owner.UC, FileContract: rev}}}
+			SignV1(a.CS, &rtxn, false)
+			// the challenge comes from the block before the new window start; if that block does not exist yet the
+			// best on offer is the tip
+			wid := a.CS.Index.ID
+			if N-1 < uint64(len(a.G.C.Store.CI)) {
+				wid = a.G.C.Store.CI[N-1].ChainIndex.ID
+			}
+			revised := e.Copy()
+			revised.FileContract = rev
+			bb := NewBuilder(t, a.G.C, a.G.W)
+			ptxn, okp := bb.V1ProofFor(revised, wid)
+			if !okp {
+				return types.Block{}, consensus.V1BlockSupplement{}, false
+			}
+			return a.manyV1(rtxn, ptxn)
+		}
+		return sc, true
 	case "v2-revision-proof-height", "v2-proof-height", "v2-expiration-height":
 		P := child + ahead
 		E := P + uint64(rapid.IntRange(1, 3).Draw(t, "expLen"))
@@ -526,7 +573,7 @@ func min64(a, b uint64) uint64 {
 // BoundRules lists the rule names understood by SetupBound.
 var BoundRules = []string{
 	"v1-output-maturity", "v2-output-maturity", "v1-unlock-conditions-timelock", "v2-uc-policy-timelock", "v1-signature-timelock",
-	"v2-above", "v2-after", "v1-revision-window-start", "v1-proof-window", "v1-formation-window-start",
+	"v2-above", "v2-after", "v1-revision-window-start", "v1-proof-window", "v1-formation-window-start", "v1-proof-after-window-revised-in-block",
 	"v2-revision-proof-height", "v2-proof-height", "v2-expiration-height", "v2-formation-proof-height",
 	"v1-until-require-height", "v2-from-allow-height",
 }
